@@ -161,11 +161,23 @@ func (w *World) Cleanup() {
 	_ = os.RemoveAll(w.Dir)
 }
 
-// FlushOne lets the parked flush worker flush one sealed memtable.
+// FlushOne lets a parked flush worker flush one sealed memtable. The engine
+// starts one flush worker; if a build has several, which of the parked workers
+// (each already holding its memtable) goes first is a scheduler choice.
 func (w *World) FlushOne() bool {
-	t := w.Sched.Find("w:lsm.flush.next")
-	if t == nil || !w.Sched.Parked(t) {
+	var parked []*sim.Task
+	for _, t := range w.Sched.Enabled() {
+		if t.Site == "lsm.flush.next" {
+			parked = append(parked, t)
+		}
+	}
+	if len(parked) == 0 {
 		return false
+	}
+	t := parked[0]
+	if len(parked) > 1 {
+		t = parked[w.Sched.Choose(len(parked))]
+		w.Res.Probes["flush_workers_raced"]++
 	}
 	w.Sched.Release(t)
 	w.Res.Faults["flush"]++
